@@ -278,6 +278,35 @@ deriving DecidableEq, Repr
     codes = [ord(e[-1]) for e in esc]
     L.append("/-- octets written as `\\\\X` by `serialise_octets`. -/")
     L.append(f"def zoneEscapeBackslash : List Nat := {codes}")
+    # --- decision tables translated from the source text -------------------------------------
+    # resolve_hostname_to_ip: protocol mode -> record types asked for, in order
+    rh = block_after(rec, r"fn\s+resolve_hostname_to_ip")
+    rows = re.findall(r"ProtocolMode::(\w+)\s*=>\s*vec!\[([^\]]*)\]", rh)
+    if not rows:
+        raise Missing("recursive.rs protocol mode table")
+    table = [(m, re.findall(r"RecordType::(\w+)", body)) for m, body in rows]
+    L.append("\n/-- `resolve_hostname_to_ip`: protocol mode ↦ record types asked for, in order (translated from the `match`). -/")
+    L.append("def protocolModeRtypes : List (String × List String) := [" + ", ".join(
+        '("%s", [%s])' % (m, ", ".join('"%s"' % t for t in ts)) for m, ts in table) + "]")
+    # response_matches_request: the checks, in source order, as tags
+    rm = block_after(ns, r"fn\s+response_matches_request")
+    conds = re.findall(r"if\s+(.*?)\s*\{\s*return\s+false;\s*\}", rm, re.S)
+    if not conds:
+        raise Missing("nameserver.rs response_matches_request checks")
+    def tag(c):
+        c = re.sub(r"\s+", " ", c.strip())
+        if c == "request.header.id != response.header.id": return "id"
+        if c == "!response.header.is_response": return "qr"
+        if c == "request.header.opcode != response.header.opcode": return "opcode"
+        if c == "response.header.is_truncated": return "tc"
+        if c == "request.questions != response.questions": return "questions"
+        m = re.fullmatch(r"!\((response\.header\.rcode == Rcode::\w+(?: \|\| response\.header\.rcode == Rcode::\w+)*)\)", c)
+        if m: return "rcode:" + ",".join(re.findall(r"Rcode::(\w+)", c))
+        return "unknown:" + c.replace('"', "'")
+    tail_true = re.search(r"\}\s*true\s*\}?\s*$", rm.strip()) is not None
+    L.append("/-- `response_matches_request`: its `if … { return false; }` checks in source order (then `true`). -/")
+    L.append("def responseMatchesChecks : List String := [" + ", ".join('"%s"' % tag(c) for c in conds) + "]")
+    L.append(f"def responseMatchesEndsTrue : Bool := {'true' if tail_true else 'false'}")
     L.append("\nend Resolved.Gen\n")
     return "\n".join(L)
 
